@@ -168,14 +168,16 @@ def collect():
                 for m in re.finditer(r'\bunsafe\s+impl\b[^{;]*\b(Send|Sync)\b', text):
                     sites.append((rel, line_of(text, m.start()), 'SUnsafeSendSync', True, m.group(1)))
                 if rel == 'feel-number/src/dec.rs':
-                    for m in re.finditer(r'\bDEFAULT_CONTEXT\b', text):
+                    # every static of type DecContext (DEFAULT_CONTEXT and any other): each use must be a `.clone()` (a private copy per call)
+                    ctx_statics = set(re.findall(r'\bstatic\s+(?:ref\s+|mut\s+)?([A-Za-z_][A-Za-z0-9_]*)\s*:\s*DecContext\b', text)) | {'DEFAULT_CONTEXT'}
+                    for m in re.finditer(r'\b(%s)\b' % '|'.join(sorted(re.escape(x) for x in ctx_statics)), text):
                         before = text[max(0, m.start() - 12):m.start()]
-                        if re.search(r'static\s+ref\s+$', before):
+                        if re.search(r'static\s+(?:ref\s+|mut\s+)?$', before):
                             continue
                         cloned = text[m.end():m.end() + 8].startswith('.clone()')
                         sites.append((rel, line_of(text, m.start()), 'SCtxUse %s' % ('true' if cloned else 'false'), True, ''))
-                    # extern functions taking a context: every call must pass a fresh copy
-                    ctx_fns = set(re.findall(r'\bfn\s+(dec[A-Za-z0-9]+)\s*\([^)]*\*mut\s+DecContext[^)]*\)', text))
+                    # extern functions taking a context (by *mut or *const pointer: the C library writes through either): every call must pass a fresh copy
+                    ctx_fns = set(re.findall(r'\bfn\s+(dec[A-Za-z0-9]+)\s*\([^)]*\*(?:mut|const)\s+DecContext[^)]*\)', text))
                     for m in re.finditer(r'\b(dec[A-Z][A-Za-z0-9]+)\s*\(', text):
                         if m.group(1) not in ctx_fns or re.search(r'\bfn\s+$', text[max(0, m.start() - 4):m.start()]):
                             continue
@@ -184,7 +186,7 @@ def collect():
                             depth += {'(': 1, ')': -1}.get(text[j], 0)
                             j += 1
                         args = text[m.end():j - 1]
-                        ok = 'DEFAULT_CONTEXT.clone()' in args.replace(' ', '') or re.search(r'&mut\s+c\b', args) is not None
+                        ok = any((x + '.clone()') in args.replace(' ', '') for x in ctx_statics) or re.search(r'&mut\s+c\b', args) is not None
                         sites.append((rel, line_of(text, m.start()), 'SFfiCtx %s' % ('true' if ok else 'false'), True, m.group(1)))
     return sites, locks
 
